@@ -440,6 +440,7 @@ func init() {
 			if len(distinct) > 1 {
 				r.Nontrivial += int64(len(distinct))
 			}
+			r.Counters["nonreproducible_executions_retried"] += int64(st.Retries)
 			if st.Capped {
 				r.Capped, r.CapNote = true, fmt.Sprintf("scenario %d capped at %d schedules", si, st.Executions)
 			}
